@@ -13,7 +13,7 @@ META = {
                   'xrspatial.zonal._single_zone_crosstab_3d', 'xrspatial.zonal._sort_and_stride', 'xrspatial.zonal._strides', 'xrspatial.zonal._get_zone_values'],
     'bounds': {'quick': 'zones/values rasters of 2 cells (every selection mode: <= 2 requested zone ids and <= 2 requested category ids, any order, absent ids) '
                         'and 3 cells (unrestricted, one requested category, one requested zone); all zone ids, values, nodata and requested ids symbolic reals '
-                        '(values may be NaN); agg count and percentage; 3-D: 2 layers x 1x3, agg in {count, sum, mean, max, min}',
+                        '(values may be NaN); agg count and percentage; 3-D: 2 layers x 1x3, agg in {count, sum, mean, max, min}; integer zones with integer categories (2-D)',
                'thorough': '3 cells for every selection mode, 4 cells (2x2, 1x4) for unrestricted / single selections'},
     'stubs': ['numba.jit = identity', 'pandas.DataFrame = sx.minipd (column dict)', 'np.unique / np.argsort / np.sort on symbolic data = forking insertion sort'],
     'outside': ['more than 4 cells', 'float rounding of percentages', 'dask backend (C03)', 'duplicate ids inside zone_ids / cat_ids'],
